@@ -70,6 +70,13 @@ func overlay() (map[string][]byte, error) {
 	if err := sym.OverlayFromDirs(ov, filepath.Join(verifDir, "engine/vrt"), filepath.Join(repoDir, "pkg/vrt")); err != nil {
 		return nil, err
 	}
+	for virt, real := range inPkgOverlay() {
+		b, err := os.ReadFile(real)
+		if err != nil {
+			return nil, err
+		}
+		ov[virt] = b
+	}
 	return ov, nil
 }
 
@@ -234,7 +241,17 @@ func cmdCheck(prop, tier string) int {
 		knownHits  = map[string]int{}
 		inconcl    []string
 		replayed   int
+		validated  int
 	)
+	defer cleanupReplayBinary()
+	sd := seed()
+	ld.Engine.SamplePath = func(dec []int) bool {
+		h := uint64(1469598103934665603) ^ uint64(sd)
+		for _, d := range dec {
+			h = (h ^ uint64(d+1)) * 1099511628211
+		}
+		return h%97 == 0 || len(dec) == 0
+	}
 	for _, sp := range specs {
 		fn := hp.Func(sp.Name)
 		if fn == nil {
@@ -249,6 +266,25 @@ func cmdCheck(prop, tier string) int {
 		res := ld.Engine.Explore(fn, opts, &total)
 		results = append(results, res)
 		printResult(res, &sym.SolverStats{})
+		if sp.Replay == "e2e-cli" {
+			for i, vs := range res.Validation {
+				if i >= 3 {
+					break
+				}
+				if bad, out := e2eCLI(vs.Model); bad {
+					inconcl = append(inconcl, "ENCODER-MISMATCH (e2e validation) "+sp.Name+": the real binary deviates on an assertion-clean path: "+clip(out, 300))
+				} else {
+					validated++
+				}
+			}
+		}
+		if sp.Replay == "" || sp.Replay == "native" {
+			n, mism := validateSamples(res)
+			validated += n
+			for _, m := range mism {
+				inconcl = append(inconcl, "ENCODER-MISMATCH (validation replay) "+m)
+			}
+		}
 		for _, v := range res.Violations {
 			matched := false
 			for _, k := range known {
@@ -302,7 +338,7 @@ func cmdCheck(prop, tier string) int {
 			inconcl = append(inconcl, "replay mismatch "+v.Harness+"/"+v.Label)
 		}
 	}
-	writeEvidence(prop, tier, specs, results, &total, time.Since(start), loadWall, len(reported), inconcl, knownHits, replayed, replayNotes)
+	writeEvidence(prop, tier, specs, results, &total, time.Since(start), loadWall, len(reported), inconcl, knownHits, replayed+validated, replayNotes)
 	if rc == 0 && len(inconcl) > 0 {
 		seen := map[string]bool{}
 		for _, s := range inconcl {
